@@ -717,6 +717,11 @@ public:
   void print(std::ostream&       out,
              const uint_least8_t flags = AMOUNT_PRINT_NO_FLAGS) const;
 
+#if defined(LEDGER_VERIF)
+  // Verification hook: writes "A:<hex symbol>[~<hex annotation>]:<num>/<den>:<prec>:<keep>"
+  void verif_rational(std::ostream& out) const;
+#endif
+
   /*@}*/
 
   /** @name Debugging
